@@ -259,6 +259,13 @@ def install(host):
     if host == 'windowslike':
         # LLP64: C long / unsigned long are 32 bits wide there (ctypes.c_long is ctypes.c_int on Windows)
         ctypes.c_long, ctypes.c_ulong = ctypes.c_int32, ctypes.c_uint32
+    if host in ('windowslike', 'scrambled'):
+        # a 32-bit interpreter: every way of asking for the word size says 32
+        sys.maxsize = (1 << 31) - 1
+        import platform as _platform
+        _platform.architecture = lambda *a, **kw: ('32bit', 'ELF')
+        _platform.machine = lambda: 'i686'
+        ctypes.c_size_t, ctypes.c_ssize_t, ctypes.c_void_p = ctypes.c_uint32, ctypes.c_int32, ctypes.c_uint32
     errno.errorcode.clear()
     errno.errorcode.update(err)
     for code, name in err.items():
@@ -338,6 +345,11 @@ def workload(seed):
                          for a in sorted(D.AF_CORE) for k in sorted(D.SOCK)}
     out['socket_delegate'] = {f'{a},{k}': render('BSC_socket_delegate', (a, k, 0, 77), (0, 3, 0, 0))
                               for a in sorted(D.AF_CORE) for k in sorted(D.SOCK)}
+    # words the tool shows as signed numbers (file offsets, deltas): the same dump reads the same on a 32-bit interpreter
+    signed = [(1 << 31) - 1, 1 << 31, (1 << 32) - 1, 1 << 32, 1 << 40, (1 << 62) + 5, (1 << 63) - 1, 1 << 63, (1 << 64) - 2]
+    out['signed_lseek'] = {hex(w): render('BSC_lseek', (5, w, 0, 0), (0, w, 0, 0)) for w in signed}
+    out['signed_preadv'] = {hex(w): render('BSC_sys_preadv', (5, 0x1000, 2, w), (0, 64, 0, 0)) for w in signed}
+    out['signed_decr'] = {hex(w): render('DecrSet', (w, w, w, w), (0, 0, 0, 0)) for w in signed}
     # numbers Darwin does not list: whatever happens (a name, a bare number, an exception) must not depend on the host
     out['signals_unlisted'] = {str(s): render('BSC_sigaction', (s, 0x10, 0x20, 0), (22, 0, 0, 0))
                                for s in [0] + list(range(32, 70)) + [128, 1 << 31]}
@@ -461,6 +473,10 @@ def workload(seed):
 
 if __name__ == '__main__':
     host, seed = sys.argv[1], int(sys.argv[2])
+    if os.environ.get('VERIF_LOGGING') == 'DEBUG':
+        import io
+        import logging
+        logging.basicConfig(level=logging.DEBUG, stream=io.StringIO(), force=True)
     install(host)
     res = workload(seed)
     res['_env_reads'] = sorted(ENV_READS)
